@@ -144,7 +144,13 @@ def check_level_limit(tier):
                                 parents.append(d)
                                 cands[d] = DemeCandidates(individuals=list(inds), features=DemeFeatures())
                             below = [StubDeme(1, active=True) for _ in range(n_active)] + [StubDeme(1, active=False) for _ in range(n_inactive)]
-                            tree = SimpleNamespace(levels=[parents, below])
+                            for k_, dd in enumerate(below):
+                                dd._hibernating = (k_ % 2 == 0)      # a hibernating deme is still active: it occupies its slot
+                            # children of a parent that is not a key (e.g. already stopped) count as well
+                            orphan_owner = StubDeme(0, active=False, children=below[:1])
+                            tree = SimpleNamespace(levels=[parents + [orphan_owner], below])
+                            for k_, dd in enumerate(below[1:]):
+                                parents[k_ % len(parents)].children.append(dd)
                             before = {d: list(c.individuals) for d, c in cands.items()}
                             out = LevelLimit(limit)(cands, tree)
                             kept = [k for d in parents for k in out[d].individuals]
@@ -424,8 +430,10 @@ def check_population(tier, want):
         box = np.array([(-5.0, 5.0)] * 2)
         table = {}
 
+        OFFSET, SCALE_F = [0.0], [1.0]
+
         def f(x):
-            return table.get(np.asarray(x).tobytes(), float(np.sum(np.asarray(x) ** 2)) * (-1 if mx else 1))
+            return table.get(np.asarray(x).tobytes(), (OFFSET[0] + SCALE_F[0] * float(np.sum(np.asarray(x) ** 2))) * (-1 if mx else 1))
         fp = EvalCountingProblem(FunctionProblem(f, box, mx))
         for n in (1, 2, 3, 4, 5):
             for fits in itertools.product(vals, repeat=n):
@@ -447,11 +455,14 @@ def check_population(tier, want):
                             raise Violation("C12" if want != "C13" else "C13", "topk does not keep the best k in the problem's direction", dict(fits=fits, k=k, maximize=mx))
         # engines: elitism / one-to-one replacement / size on random objective tables
         rng = random.Random(17)
-        for trial in range(40 if tier == "quick" else 400):
+        for trial in range(60 if tier == "quick" else 400):
             n = rng.choice([4, 5, 8])
             parents = [Individual(np.array([rng.uniform(-5, 5), rng.uniform(-5, 5)]), fp, None) for _ in range(n)]
+            near_ties = trial % 3 == 0        # an objective whose values differ only in the 7th-9th significant digit
+            OFFSET[0] = 1000.0 if near_ties else 0.0
+            SCALE_F[0] = 1e-7 if near_ties else 1.0
             for ind in parents:
-                ind.fitness = f(ind.genome) if rng.random() < 0.7 else rng.choice([0.0, 1.0])
+                ind.fitness = f(ind.genome) if (rng.random() < 0.7 or near_ties) else rng.choice([0.0, 1.0])
                 table[ind.genome.tobytes()] = ind.fitness
             np.random.seed(trial)
             for eng in (DE(use_dither=False, crossover_probability=0.9, f=0.8), DE(use_dither=True, crossover_probability=0.5), SHADE(5, n),
